@@ -216,6 +216,13 @@ pub fn run(cx: &RunCtx) -> i32 {
                 one::<&[char]>(acc, g, &ps, buf, true);
             }
         }
+        // the same repetition driven through an explicit .clone() of the iterable parser (bounds and flags
+        // are plain fields that a hand-written Clone impl has to carry over)
+        let pc = build::<&str, Rich<char>>(g, Opts { clone_iter: true, ..Opts::default() });
+        for buf in bufs.iter().skip(gi % 2).step_by(2) {
+            one::<&str>(acc, g, &pc, buf, true);
+            acc.count("cases_through_a_cloned_iterable", 1);
+        }
     });
     acc.count("enumerated_grammars", n_enum as u64);
     acc.count("enumerated_inputs", bufs.len() as u64);
@@ -242,7 +249,7 @@ pub fn run(cx: &RunCtx) -> i32 {
         acc,
         Finish {
             rule: format!(
-                "REP.then(any().repeated().to_slice()) for REP in: item.repeated() with every (at_least, at_most|unbounded|exactly) in 0..4, bounds given statically and through configure(), x 8 flavours (unit, Vec, String, usize, count(), enumerate, [_;2], [_;3]) x every non-nullable C01-class item of <= 2 nodes; item.separated_by(sep) with the same bounds x allow_leading x allow_trailing x 8 flavours x leaf items/separators (+ a stride of 2-node ones); foldl/foldr/foldl_with/foldr_with over both; x every input of length <= {max_len} over {{a,b,é}}; plus {n_rand} random grammar picks x 3 random inputs of up to 200 tokens; non-trivial = the repetition matched a prefix of an input of >= 2 tokens (items taken and a remainder or bound decision to observe); enumerated cases distinct by construction"
+                "REP.then(any().repeated().to_slice()) for REP in: item.repeated() with every (at_least, at_most|unbounded|exactly) in 0..4, bounds given statically and through configure(), x 8 flavours (unit, Vec, String, usize, count(), enumerate, [_;2], [_;3]) x every non-nullable C01-class item of <= 2 nodes; item.separated_by(sep) with the same bounds x allow_leading x allow_trailing x 8 flavours x leaf items/separators (+ a stride of 2-node ones); foldl/foldr/foldl_with/foldr_with over both; x every input of length <= {max_len} over {{a,b,é}} (every second input once more with the iterable parser driven through an explicit .clone() of itself); plus {n_rand} random grammar picks x 3 random inputs of up to 200 tokens; non-trivial = the repetition matched a prefix of an input of >= 2 tokens (items taken and a remainder or bound decision to observe); enumerated cases distinct by construction"
             ),
             exhaustive: false,
             exhaustive_note: format!("the listed grammar family x all inputs <= {max_len} tokens over 3 letters: complete"),
@@ -251,7 +258,7 @@ pub fn run(cx: &RunCtx) -> i32 {
                 "A1 (separator following the at_most-th item under allow_trailing) and A2 (lone leading separator) are lenient: such cases are compared, a mismatch there is counted as ambiguous, not as a violation".into(),
                 "fold functions are non-commutative and non-associative pair constructors, so order and direction are visible".into(),
             ],
-            require: vec![("accepted".into(), 1000), ("item_attempts_abandoned".into(), 1000)],
+            require: vec![("accepted".into(), 1000), ("item_attempts_abandoned".into(), 1000), ("cases_through_a_cloned_iterable".into(), 10_000)],
             min_evaluations: 100_000,
         },
     )
